@@ -12,12 +12,15 @@ OS_ATTRS = [None, None, None, "linux", "unix", "windows", "macos", "openbsd"]
 
 # (documentation displayed, source lines declaring it): comments, [doc(...)] strings whose source text differs from their
 # value (escapes, triple quotes), [doc] suppressing a comment, the attribute winning over a comment
-DOCS = [(None, []), (None, []), (None, []), ("doc of NM", ["# doc of NM"]), ("doc of NM", ["# doc of NM"]),
-        ("single # NM", ["[doc('single # NM')]"]),
-        ('say "NM"\tnow \\ caf\u00e9', ['[doc("say \\"NM\\"\\tnow \\\\ caf\\u{e9}")]']),
-        ("tri NM", ["[doc(\'\'\'tri NM\'\'\')]"]),
-        (None, ["# hidden NM", "[doc]"]),
-        ("attr NM", ["# comment NM", '[doc("attr NM")]'])]
+DOCS = [(None, [], None, None), (None, [], None, None), (None, [], None, None),
+        ("doc of NM", ["# doc of NM"], "doc of NM", None), ("doc of NM", ["# doc of NM"], "doc of NM", None),
+        ("# NM twice", ["## NM twice"], "# NM twice", None), ("NM tight", ["#NM tight"], "NM tight", None),
+        ("spaced NM", ["#    spaced NM"], "spaced NM", None), ("#! `NM` ## x", ["# #! `NM` ## x"], "#! `NM` ## x", None),
+        ("single # NM", ["[doc('single # NM')]"], None, {"v": "single # NM"}),
+        ('say "NM"\tnow \\ caf\u00e9', ['[doc("say \\"NM\\"\\tnow \\\\ caf\\u{e9}")]'], None, {"v": 'say "NM"\tnow \\ caf\u00e9'}),
+        ("tri NM", ["[doc(\'\'\'tri NM\'\'\')]"], None, {"v": "tri NM"}),
+        (None, ["# hidden NM", "[doc]"], "hidden NM", {"v": None}),
+        ("attr NM", ["# comment NM", '[doc("attr NM")]'], "comment NM", {"v": "attr NM"})]
 
 
 def gen(rng):
@@ -36,12 +39,14 @@ def gen(rng):
             if priv_attr:
                 attrs.append("private")
             groups = rng.sample(["g1", "g2"], rng.choice([0, 0, 1, 2]))
-            doc, doc_src = rng.choice(DOCS)
+            doc, doc_src, comment, doc_attr = rng.choice(DOCS)
             if doc is not None:
                 doc = doc.replace("NM", nm)
             doc_src = [x.replace("NM", nm) for x in doc_src]
+            comment = comment.replace("NM", nm) if comment else None
+            doc_attr = {"v": doc_attr["v"].replace("NM", nm) if doc_attr["v"] else None} if doc_attr else None
             params = rng.choice([[], [], ["a"], ["a='d'"], ["*a"], ["+a"], ["a", "b='x'"], ["+a='y'"], ["$a", "*$b"], ["a=\"q\\tz\""]])
-            recipes.append({"name": nm, "id": prefix + nm, "attrs": attrs, "groups": groups, "doc": doc, "doc_src": doc_src, "params": params,
+            recipes.append({"name": nm, "id": prefix + nm, "attrs": attrs, "groups": groups, "doc": doc, "doc_src": doc_src, "comment": comment, "doc_attr": doc_attr, "params": params,
                             "enabled": osattr in (None, "linux", "unix"),
                             "private": nm.startswith("_") or priv_attr,
                             "min": sum(1 for x in params if "=" not in x and not x.startswith("*"))})
@@ -51,10 +56,16 @@ def gen(rng):
     root = module("", 0)
     # the chooser needs a harmless public recipe it can always pick
     if not any(r["name"] == "noop" for r in root["recipes"]):
-        root["recipes"].append({"name": "noop", "id": "noop", "attrs": [], "groups": [], "doc": None, "doc_src": [], "params": [], "enabled": True,
+        root["recipes"].append({"name": "noop", "id": "noop", "attrs": [], "groups": [], "doc": None, "doc_src": [], "comment": None, "doc_attr": None, "params": [], "enabled": True,
                                 "private": False, "min": 0})
     for sm in rng.sample(["foo", "bar"], rng.choice([0, 1, 2])):
-        root["subs"].append(dict(module(sm + "::", 1), name=sm))
+        sub = dict(module(sm + "::", 1), name=sm)
+        # a module nested two levels deep: every view has to descend
+        if rng.random() < 0.4:
+            dn = rng.choice(["deep", "aaa"])
+            if dn not in {x["name"] for x in sub["recipes"]}:
+                sub["subs"].append(dict(module(sm + "::" + dn + "::", 2), name=dn))
+        root["subs"].append(sub)
     # aliases in the root: to own recipes and to submodule recipes
     targets = [(r["name"], r) for r in root["recipes"] if r["enabled"]]
     for s in root["subs"]:
@@ -105,6 +116,9 @@ def files_of(root, rng):
         moved = [r for r in s["recipes"] if rng.random() < 0.4]
         keep = [r for r in s["recipes"] if r not in moved]
         head = shell
+        for dd in s["subs"]:
+            head += "mod %s '%s_%s.just'\n" % (dd["name"], s["name"], dd["name"])
+            files["%s_%s.just" % (s["name"], dd["name"])] = shell + "\n" + "".join(recipe_text(r) for r in dd["recipes"])
         if moved:
             head += "import '%s_imp.just'\n" % s["name"]
             files["%s_imp.just" % s["name"]] = "".join(recipe_text(r) for r in moved)
@@ -121,11 +135,16 @@ def spec(root):
     summary = public(root)
     for s in sorted(root["subs"], key=lambda x: x["name"]):
         summary += [s["name"] + "::" + n for n in public(s)]
+        for dd in sorted(s["subs"], key=lambda x: x["name"]):
+            summary += [s["name"] + "::" + dd["name"] + "::" + n for n in public(dd)]
     choose = sorted(r["name"] for r in root["recipes"] if r["enabled"] and not r["private"] and r["min"] == 0)
     for s in root["subs"]:
         choose += [s["name"] + " " + r["name"] for r in s["recipes"] if r["enabled"] and not r["private"] and r["min"] == 0]
+        for dd in s["subs"]:
+            choose += [s["name"] + " " + dd["name"] + " " + r["name"] for r in dd["recipes"] if r["enabled"] and not r["private"] and r["min"] == 0]
     namepaths = sorted([r["name"] for r in root["recipes"] if r["enabled"]] +
-                       [s["name"] + "::" + r["name"] for s in root["subs"] for r in s["recipes"] if r["enabled"]])
+                       [s["name"] + "::" + r["name"] for s in root["subs"] for r in s["recipes"] if r["enabled"]] +
+                       [s["name"] + "::" + dd["name"] + "::" + r["name"] for s in root["subs"] for dd in s["subs"] for r in dd["recipes"] if r["enabled"]])
     return {"summary": summary, "list": public(root), "choose": sorted(choose), "json_namepaths": namepaths,
             "json_public": public(root), "json_all": sorted(r["name"] for r in root["recipes"] if r["enabled"])}
 
@@ -235,7 +254,8 @@ def run_case(arg):
             res["json_aliases"] = {k: v["target"] for k, v in j["aliases"].items()}
             res["json_modules"] = sorted(j["modules"].keys())
             res["json_namepaths"] = sorted([v["namepath"] for v in j["recipes"].values()] +
-                                           [v["namepath"] for mm in j["modules"].values() for v in mm["recipes"].values()])
+                                           [v["namepath"] for mm in j["modules"].values() for v in mm["recipes"].values()] +
+                                           [v["namepath"] for mm in j["modules"].values() for m2 in mm["modules"].values() for v in m2["recipes"].values()])
         except Exception as e:
             res["json_error"] = str(e) + err[:200]
         cands = os.path.join(d, "cands.txt")
@@ -291,7 +311,10 @@ def model_of(root):
         rs = recs(s)
         for r in rs:
             byid[r["id"]] = r
-        subs.append({"name": s["name"], "recipes": rs, "aliases": [], "subs": []})
+        deep = []
+        for dd in sorted(s["subs"], key=lambda x: x["name"]):
+            deep.append({"name": dd["name"], "recipes": recs(dd), "aliases": [], "subs": []})
+        subs.append({"name": s["name"], "recipes": rs, "aliases": [], "subs": deep})
     aliases = [{"name": a["name"], "isPrivate": a["name"].startswith("_") or a["private_attr"], "target": byid[a["target_id"]]}
                for a in root["aliases"]]
     return {"name": "", "recipes": recs(root), "aliases": aliases, "subs": subs}
@@ -312,10 +335,21 @@ def run(report):
     reqs = [{"op": "listing", "root": model_of(root), "names": [r["name"] for r in root["recipes"] if r["enabled"]] + [a["name"] for a in root["aliases"]],
              "showByName": False} for root, _ in cases]
     model = drv.pbatch(reqs, chunk=1000)
-    stats = {"programs": n, "names_compared": 0, "aliases": 0, "aliases_to_submodules": 0, "private_names_run": 0, "commands": 0, "declared_docs_compared": 0}
+
+    def entries_request(root):
+        decls = [{"name": x["name"], "params": x["params"], "comment": x.get("comment"), "docAttr": x.get("doc_attr"),
+                  "groups": sorted(x["groups"]), "isPrivate": x["private"]} for x in root["recipes"] if x["enabled"]]
+        als = [{"name": a["name"], "isPrivate": a["name"].startswith("_") or a["private_attr"], "targetName": a["target"].split("::")[-1],
+                "targetHere": "::" not in a["target"]} for a in root["aliases"]]
+        return {"op": "entries", "decls": decls, "aliases": als}
+
+    emodel = drv.pbatch([entries_request(root) for root, _ in cases], chunk=1000)
+    stats = {"programs": n, "with_nested_module": sum(1 for root, _ in cases if any(x["subs"] for x in root["subs"])), "names_compared": 0, "aliases": 0, "aliases_to_submodules": 0, "private_names_run": 0, "commands": 0, "declared_docs_compared": 0}
     distinct = set()
     samples = []
-    for (root, files), r, m in zip(cases, results, model):
+    for (root, files), r, m, em in zip(cases, results, model, emodel):
+        if "fatal" in em:
+            raise C.BuildError("model driver: " + em["fatal"])
         if "fatal" in m:
             raise C.BuildError("model driver: " + m["fatal"])
         want = spec(root)
@@ -370,6 +404,13 @@ def run(report):
             report.failure("c17-declared:%s" % dbad[0], "%s of `%s`: displayed %r, declared %r" % dbad, dict(replay, name=dbad[1]))
             continue
         stats["declared_docs_compared"] += sum(1 for x in root["recipes"] if x["doc"] is not None and x["enabled"] and not x["private"])
+        # the same entries from the model (Just.Listing.entriesOf): heading, signature, documentation, aliases
+        want_entries = sorted(([e["heading"] or "", e["signature"], e["doc"], sorted(e["aliases"])] for es in em["entries"] for e in es), key=json.dumps)
+        got_entries = sorted(([e["group"] or "", e["sig"], e["doc"], sorted(e["aliases"])] for e in r["list_entries"]), key=json.dumps)
+        if want_entries != got_entries:
+            report.failure("c17-model-entries", "the entries of --list differ from Just.Listing.entriesOf (declared-vs-displayed oracle holds)",
+                           dict(replay, correspondence="C17 --list entries vs Just.Listing.entriesOf", model=want_entries, impl=got_entries), no_input=True)
+            continue
         # --show vs run, private names still runnable
         failed = False
         for nm, t in r["targets"].items():
@@ -442,7 +483,7 @@ def run(report):
     report.coverage.update({
         "evaluations": stats["commands"],
         "distinct_nontrivial": len(distinct),
-        "rule": "random justfiles: public / [private] / underscore recipes, OS attributes (enabled and disabled on linux), groups, doc comments and [doc] attributes (escapes, triple quotes, suppression), parameters of every kind (exported, escaped defaults), an import, up to two submodules, public and private aliases to own and to submodule recipes; --summary, --list (sorted/unsorted), JSON dump, --choose candidates, --groups, the groups / documentation / parameters displayed vs declared (root and `--list MODULE`), and for every name --show vs what `just NAME` runs; distinct = distinct file sets",
+        "rule": "random justfiles: public / [private] / underscore recipes, OS attributes (enabled and disabled on linux), groups, doc comments and [doc] attributes (escapes, triple quotes, suppression), parameters of every kind (exported, escaped defaults), an import, up to two submodules each possibly with a nested submodule, public and private aliases to own and to submodule recipes; --summary, --list (sorted/unsorted), JSON dump, --choose candidates, --groups, the groups / documentation / parameters displayed vs declared (root and `--list MODULE`), and for every name --show vs what `just NAME` runs; distinct = distinct file sets",
         "samples": samples,
         "traces_validated_against_impl": n,
         "stats": stats,
